@@ -122,7 +122,7 @@ func configShape() ([]cfgLeaf, []cfgLevel) {
 	return leaves, levels
 }
 
-var c16Values = []string{"plain", "${V}", "pre-$V-post", "  $E  ", "  padded  ", "${project.version}/${dist-name}", "~/keys/k", "a$$b", "${V:-fallback}", "${UNSET:-fallback}-x", "arm"}
+var c16Values = []string{"plain", "${V}", "pre-$V-post", "  $E  ", "  padded  ", "${project.version}/${dist-name}", "~/keys/k", "a$$b", "${V:-fallback}", "${UNSET:-fallback}-x", "arm", "first line\n\tsecond line led by a tab\n    third line led by blanks\n"}
 
 // c16ValuesThorough: further shapes - a bare variable name, brace/percent look-alikes, doubled and adjacent
 // references, '$' at the end, an unset variable, references padded with blanks, non-ASCII text.
